@@ -152,6 +152,36 @@ def gen_case(rnd, kind, cid, maxops, stats, allow_ttl0=True, probe_every=True):
         else:
             emit("op %d find %d %d" % (now, victim, rnd.choice([0, 1])), now)
         nops = max(3, nops // 2)
+    if kind == "utlru" and rnd.random() < 0.25:
+        # several update_ttl calls in a row (long, short, in between): entries written under the first TTL outlive
+        # entries written under the last one, although no single step "shortened after the last write"
+        tl_, ts_, tm_ = rnd.choice([(100, 10, 50), (50, 1, 10), (100, 5, 50), (50, 2, 10)])
+        lines[0] = lines[0].replace(" %d %d %d %d %d " % (cap, ttl, tick, rnum, rk), " %d %d %d %d %d " % (cap, tl_, tick, rnum, rk), 1)
+        cur_ttl[0] = tl_
+        t0 = now
+        ks = universe[:max(1, min(cap - 1, 2))]
+        for k in ks:
+            emit("op %d insert 0 %d %d 3" % (now, k, val()), now)
+            marks.append(now + tl_ * MS)
+        emit("op %d update_ttl %d" % (now, ts_), now)
+        if rnd.random() < 0.5:
+            emit("op %d find %d 1" % (now, ks[0]), now)
+        emit("op %d update_ttl %d" % (now, tm_), now)
+        cur_ttl[0] = tm_
+        now += rnd.choice([0, 1, MS])
+        emit("op %d insert 0 %d %d 3" % (now, universe[-1], val()), now)
+        marks.append(now + tm_ * MS)
+        now = now + tm_ * MS + rnd.choice([0, 1, MS])      # the last write is expired, the first ones are not (tm_ < tl_)
+        fin = rnd.choice(["clean", "clean", "insert", "find"])
+        if fin == "clean":
+            emit("op %d clean" % now, now)
+        elif fin == "insert":
+            for k in universe[len(ks):len(ks) + cap]:
+                emit("op %d insert 0 %d %d 3" % (now, k, val()), now)
+        else:
+            emit("op %d find %d 0" % (now, universe[-1]), now)
+        emit("op %d size" % now, now)
+        nops = max(3, nops // 2)
     if kind in ("utlru", "ut_map", "tlru") and rnd.random() < 0.25:
         # refresh of an entry (newest / oldest / middle one) part-way through its life, then a purge
         # (clean, or any call) at an instant between its old and its new deadline
